@@ -86,20 +86,54 @@ def run_potable(args, text=None, tmpdir=None, hashseed="0", timeout=120, infile_
           "data": data, "exists": exists, "outpath": outpath, "inpath": inpath, "tmpdir": tmpdir}
 
 
-class Numpy0d(object):
-  """A callable as people build them on numpy / scipy interpolants: it returns a 0-d array, not a float."""
+NUMPY0D_CACHED = []   # the 'cached' wrappers built for the case at hand (cleared by the check before it builds its objects)
 
-  def __init__(self, f):
+
+class Numpy0d(object):
+  """A callable as people build them on numpy / scipy interpolants: it returns a 0-d array, not a float.
+  mode 'fresh': a new array per call; 'int': an integer-typed array where the value is whole (numpy.where(r < rc, 1, 0));
+  'cached': one array object per separation, handed out again on the next call with that separation (a memoised
+  function) - the arrays are the caller's: whoever receives one must not change it (mutated() lists those changed)."""
+
+  def __init__(self, f, mode="fresh"):
     import numpy
     self._f = f
     self._np = numpy
+    self._mode = mode
+    self._cache = {}
     if hasattr(f, "deriv"):
       self.deriv = lambda r: numpy.array(f.deriv(r))
     if hasattr(f, "deriv2"):
       self.deriv2 = lambda r: numpy.array(f.deriv2(r))
+    if mode == "cached":
+      NUMPY0D_CACHED.append(self)
 
   def __call__(self, r):
-    return self._np.array(self._f(r))
+    if self._mode == "cached":
+      if r not in self._cache:
+        v = self._f(r)
+        self._cache[r] = (self._np.array(v), v)
+      return self._cache[r][0]
+    v = self._f(r)
+    if self._mode == "int" and v == int(v) and abs(v) < 1e15:
+      return self._np.array(int(v))
+    return self._np.array(v)
+
+  def mutated(self):
+    return [(r, v, float(a)) for r, (a, v) in self._cache.items() if not (float(a) == v or (v != v and float(a) != float(a)))]
+
+
+def numpy0d_mutations(ctx):
+  """After the real code ran: were arrays that belong to the user's functions changed in place?"""
+  for w in NUMPY0D_CACHED:
+    mm = w.mutated()
+    ctx.count("cached_result_arrays_inspected", len(w._cache))
+    if mm:
+      r, v, now = mm[-1]
+      ctx.violation("callable_result_mutated", "the array a user function returned for r=%r held %r and now holds %r: the writer changed the caller's object in place (%d of %d arrays)" % (
+        r, v, now, len(mm), len(w._cache)), what="callable_result_mutated")
+      return False
+  return True
 
 
 class IntWhenWhole(object):
@@ -126,8 +160,8 @@ def pair_potentials_api(model, wrap=None):
       f = shared[key]          # the very same callable object serves several species pairs
     else:
       f = emit.api_callable(node, model.get("tables"))
-      if model.get("api_results") == "numpy0d":
-        f = Numpy0d(f)
+      if str(model.get("api_results")).startswith("numpy0d"):
+        f = Numpy0d(f, {"numpy0d": "fresh", "numpy0d_int": "int", "numpy0d_cached": "cached"}[model["api_results"]])
       if model.get("api_results") == "int_when_whole":
         f = IntWhenWhole(f)
       if wrap is not None:
@@ -207,8 +241,8 @@ def eam_api_objects(model, wrap=None):
     if model.get("share_callables") and key in shared and tag[0] == shared[key][1]:
       return shared[key][0]      # one callable object serving several species / pairs of the same kind
     f = emit.api_callable(node, tables)
-    if model.get("api_results") == "numpy0d":
-      f = Numpy0d(f)
+    if str(model.get("api_results")).startswith("numpy0d"):
+      f = Numpy0d(f, {"numpy0d": "fresh", "numpy0d_int": "int", "numpy0d_cached": "cached"}[model["api_results"]])
     f = wrap(f, tag) if wrap else f
     shared[key] = (f, tag[0])
     return f
